@@ -17,7 +17,7 @@ ASSUMPTIONS = [
 
 class Check(HCheck):
     pid = ID
-    owned = ("page", "pages", "links", "crawl")
+    owned = ("page", "pages", "links", "crawl", "as_str")
     must_count = ("pages_compared_nonempty", "report_new_pages_positive")
 
     def spaces(self, tier):
@@ -38,6 +38,8 @@ class Check(HCheck):
             al.CB_CROSS,
             al.create(Ax),
             al.rule(A, "path1"),
+            al.as_str(al.page(Ab, True)),  # LRUs handed over as str (the API encodes them)
+            al.as_str(al.CB_CROSS),
         ]
         d = 5 if thorough else 4
         sp = [
